@@ -19,6 +19,7 @@ import (
 	"os/exec"
 	"path/filepath"
 	"sort"
+	"strconv"
 	"strings"
 	"sync"
 	"time"
@@ -159,7 +160,9 @@ func childSession(lines []string) map[string][]byte {
 	return r.Files
 }
 
-func childRun(lines []string) *childResult {
+func childRun(lines []string) *childResult { return childRunWeb(lines, "") }
+
+func childRunWeb(lines []string, web string) *childResult {
 	f, err := os.CreateTemp("", "c10-child-*.json")
 	if err != nil {
 		run.Infra(err.Error())
@@ -169,7 +172,8 @@ func childRun(lines []string) *childResult {
 	json.NewEncoder(f).Encode(struct {
 		Lines []string `json:"lines"`
 		Bin   bool     `json:"bin"`
-	}{lines, binMode})
+		Web   string   `json:"web"`
+	}{lines, binMode, web})
 	f.Close()
 	out := f.Name() + ".out"
 	defer os.Remove(out)
@@ -192,9 +196,26 @@ func childMain(path, out string) {
 	var in struct {
 		Lines []string `json:"lines"`
 		Bin   bool     `json:"bin"`
+		Web   string   `json:"web"`
 	}
 	b, _ := os.ReadFile(path)
 	json.Unmarshal(b, &in)
+	if in.Web != "" {
+		// one web request answered by a fresh session of a fresh process
+		prof = theProfile()
+		cr := childResult{Files: map[string][]byte{}}
+		withServer(func(w *webServer) {
+			code, body, pv := w.do(in.Web)
+			if pv != nil {
+				code = -1
+			}
+			cr.Files["body"] = body
+			cr.Files["code"] = []byte(strconv.Itoa(code))
+		})
+		jb, _ := json.Marshal(cr)
+		os.WriteFile(out, jb, 0o644)
+		return
+	}
 	lines := in.Lines
 	binMode = in.Bin
 	prof = theProfile()
@@ -563,6 +584,36 @@ func webPart(n int) {
 				run.Violate("web", "web-leak:process-wide:"+rq, fmt.Sprintf("%s in a fresh session of this process, asked after the other requests of the list instead of before them: status %d vs %d; %s", rq, code, want.code, firstDiff(body, want.body)), rq, nil)
 			}
 		})
+	}
+	// ... and a memo that is filled once and never changes answers the same both times: the requests that are answered
+	// with a diagnostic or carry options of the kinds such memos are keyed by are also asked in a fresh PROCESS each
+	{
+		var wg sync.WaitGroup
+		sem := make(chan struct{}, 8)
+		var mu sync.Mutex
+		for _, rq := range requests {
+			if rq == "/download" || !(fresh[rq].code >= 400 || strings.Contains(rq, "?")) {
+				continue
+			}
+			wg.Add(1)
+			go func(rq string) {
+				defer wg.Done()
+				sem <- struct{}{}
+				defer func() { <-sem }()
+				cr := childRunWeb(nil, rq)
+				if cr == nil {
+					return
+				}
+				code, _ := strconv.Atoi(string(cr.Files["code"]))
+				mu.Lock()
+				defer mu.Unlock()
+				run.Counter("fresh_process_web_references", 1)
+				if want := fresh[rq]; code != want.code || !bytes.Equal(cr.Files["body"], want.body) {
+					run.Violate("web", "web-leak:process-wide:"+rq, fmt.Sprintf("%s in a fresh session of THIS process (after the other requests of the list): status %d; in a fresh process: status %d; %s", rq, want.code, code, firstDiff(want.body, cr.Files["body"])), rq, nil)
+				}
+			}(rq)
+		}
+		wg.Wait()
 	}
 	r := vlib.NewRand(run.Seed + 21)
 	check := func(hist []string, rq string, got resp, mode string) {
